@@ -73,4 +73,34 @@ PROPS = {
         level_text="Generated-input search over documents whose names and strings hold the HTML-sensitive characters: every successful output of the five functions must be one RFC 8259 text in valid UTF-8 denoting the reference value; the on/off outputs must differ in spelling only, obey the two escaping clauses, ApplyIndent must equal an independent re-indentation byte for byte, and inserted passing tests must not change a byte. Exploration only.",
         level_note="Trusted: harness/ref recogniser and canonical writer, encoding/json.Indent of the default toolchain (cross-checked by an independent re-indenter). The byte-identity clauses are asserted only for inputs in the encoder's own spelling, as the quantifier states.",
     ),
+    "C02": dict(
+        pkg="c02", units=[rapid("TestProp", 20000, 300000)], assumptions=COMMON_ASSUME,
+        technique="property-based testing (rapid): generated (document, merge patch) pairs vs the RFC 7396 reference algorithm",
+        level_text="Generated-input search: documents and merge patches (mutations of the document so that recursion, deletion and type change at depth happen; nulls at every depth, also in objects nested inside arrays; all root types) are merged by MergePatch and by the five-line RFC 7396 algorithm on an independent tree; results must be structurally equal with number literals intact. Exploration only.",
+        level_note="Trusted: harness/ref Merge and reader. Null documents and duplicate member names are outside the domain.",
+    ),
+    "C03": dict(
+        pkg="c03", units=[rapid("TestProp", 15000, 250000), rapid("TestPropArr", 6000, 80000), rapid("TestPropReject", 5000, 60000)], assumptions=COMMON_ASSUME,
+        technique="property-based testing (rapid): round trip create -> apply through the RFC 7396 reference and through the library, plus a minimality validity predicate; generated rejection pairs",
+        level_text="Generated-input search: for object pairs (B a mutation of A, built without null members) and equal-length arrays of such pairs, the created patch must reproduce B through the reference merge and the library's MergePatch, be {} iff A=B, and pass a walk that checks every mentioned member differs, removals are nulls, nested objects hold the recursive difference and number literals are B's; pairs of other roots must be rejected. Exploration only.",
+        level_note="Trusted: harness/ref. B with a null-valued member, numerically-equal-but-differently-spelled numbers, null roots and null elements are outside the stated domain (excluded, counted).",
+    ),
+    "C06": dict(
+        pkg="c06", units=[rapid("TestProp", 25000, 400000), rapid("TestPropTriple", 10000, 150000), rapid("TestPropMalformed", 15000, 200000)], assumptions=COMMON_ASSUME,
+        technique="property-based testing (rapid): re-serialised / one-edit / independent pairs vs structural equality on an independent tree; equivalence-relation laws on pairs and triples; malformed inputs",
+        level_text="Generated-input search: pairs that are equal up to member order, whitespace and escaping, pairs one small edit apart (null<->absent, {}<->[]<->null, renamed member, swapped elements...) and independent pairs are judged by Equal and by structural equality on the independent tree; symmetry, reflexivity and (on triples) transitivity are checked; malformed arguments must give false. Exploration only.",
+        level_note="Trusted: harness/ref reader and Equal. Pairs with numerically-equal-but-differently-spelled numbers, lone surrogate escapes, invalid UTF-8 or duplicate names are excluded.",
+    ),
+    "C07": dict(
+        pkg="c07", units=[rapid("TestProp", 15000, 200000)], assumptions=COMMON_ASSUME,
+        technique="property-based testing (rapid): composition law checked through the RFC 7396 reference and through the library's own MergePatch",
+        level_text="Generated-input search over triples (D, P1, P2) with P2 mostly a mutation of P1 and nulls at every depth: applying MergeMergePatches(P1,P2) must equal applying P1 then P2, via the reference algorithm and via the library; a non-object P2 must come back as the combined patch. Incompatible pairs are excluded by the property's own condition. Exploration only.",
+        level_note="Trusted: harness/ref Merge. The compatibility condition is computed by the harness exactly as the statement gives it.",
+    ),
+    "C11": dict(
+        pkg="c11", units=[rapid("TestProp", 20000, 200000), plain("TestTable", shards=dict(quick=1, thorough=1))], assumptions=COMMON_ASSUME,
+        technique="property-based testing (rapid) over member mutations of valid patches plus an exhaustively enumerated single-mutation table; independent validator as oracle",
+        level_text="Generated-input search plus a complete table of single mutations (kind x member x {delete, null, retype, rename, duplicate} and element/root/op-string changes): DecodePatch must accept exactly what the independent reader and validator accept, return a nil Patch on reject, and the accessors must return the decoded members (numbers by literal). Exploration; the table is complete for single mutations of the listed kinds only.",
+        level_note="Trusted: harness/ref reader and the validator in c11 (written from the property statement). Duplicated members whose first and last occurrence disagree are ambiguous and excluded; the text null is outside the domain.",
+    ),
 }
